@@ -183,6 +183,7 @@ def run(ctx):
         results = list(ex.map(lambda kv: launch(ctx, kv[0], kv[1]), sorted(jobs.items())))
 
     digests = {}
+    viol = {}           # signature -> details of the failing configurations (one VIOLATION per signature)
     for name, job, rc, err, out in results:
         if out is None:
             if rc is not None and rc < 0:
@@ -195,7 +196,7 @@ def run(ctx):
             if not job.get('digest_only'):
                 ctx.case(json.dumps(key), nontrivial=nontrivial, sample=sample)
         for sig, detail in out['violations']:
-            ctx.violation(sig, detail)
+            viol.setdefault(sig, []).append(detail)
         for s in out['skips']:
             ctx.skip(s)
         for k, v in out['digests'].items():
@@ -203,6 +204,9 @@ def run(ctx):
                 digests.setdefault(k, {})[name] = v
             else:
                 digests.setdefault(k, {})['main'] = v
+    for sig in sorted(viol):
+        ds = viol[sig]
+        ctx.violation(sig, {'count': len(ds), 'failing': ds[:8]})
     ncross = 0
     for k, d in digests.items():
         if 'main' in d and len(d) > 1:
